@@ -21,6 +21,7 @@ mod c20;
 mod serde_abs;
 mod types_gen;
 mod serde;
+mod x06;
 mod c15;
 mod datum;
 mod c12;
@@ -77,6 +78,7 @@ fn main() {
         "c15" => c15::run(&cfg),
         "c15-replay" => c15::replay_case(&cfg),
         "serde" => serde::run(&cfg),
+        "x06" => x06::run(&cfg),
         "serde-replay" => serde::replay_case(&cfg),
         "c20" => c20::run(&cfg),
         "c20-replay" => c20::replay_case(&cfg),
